@@ -13,3 +13,8 @@ import PGV.Props.C02
 #print axioms PGV.Props.C02.C02_fields_in_order
 #print axioms PGV.Props.C02.C02_elements_in_order
 #print axioms PGV.Props.C02.C02_rules_in_order
+#print axioms PGV.Props.C02.wst_id
+#print axioms PGV.Props.C02.flat_one_step
+#print axioms PGV.Props.C02.C02_flat_closed_form
+#print axioms PGV.Props.C02.field_one_step
+#print axioms PGV.Props.C02.C02_field_closed_form
